@@ -421,4 +421,3 @@ func Judge(m *Model, r *Result, partial bool) []Verdict {
 	}
 	return vs
 }
-
